@@ -22,7 +22,7 @@ FORMAT_TWIN = True          # ambient monitor: every System matrix is also reque
 META = {
     "level_text": "Exploration: shadow-state monitors on the real System: a dense reference assembler over random systems, partition and re-assembly snapshots, and a registry model over random add/remove histories. Held on the systems and histories generated.",
     "level_note": "reference = independent dense scatter-sum; consistent initial conditions disabled in the scatter part.",
-    "technique": "shadow-state monitors (dense reference assembly, registry model) over generated systems and operation histories",
+    "technique": "shadow-state monitors (dense reference assembly, registry model) over generated systems and operation histories + ambient format-twin monitor (every System matrix also requested as coo/csr/csc/array)",
 }
 CASE_TIMEOUT = 240
 
